@@ -107,11 +107,24 @@ class TaskScheduler(object):
         # items waiting to be flushed, or computed).
         while len(self._tasks) > init_num_tasks:
             if len(self._tasks) > _debug_options.MAX_TASK_STACK_SIZE:
-                # If we were called synchronously from inside a task, that task's code
-                # is still running and is about to receive the error below.
-                active_task = self.active_task
-                self.reset()
-                self.active_task = active_task
+                # The tasks this traversal has scheduled are abandoned here. Those that were
+                # waiting inside a context (a scoped override, say) must not leave it active
+                # behind them: pause them, innermost first, while the order is still known.
+                for abandoned in reversed(self._tasks[init_num_tasks:]):
+                    if isinstance(abandoned, AsyncTask):
+                        self._abandon_task(abandoned)
+                if init_num_tasks:
+                    # We were called synchronously from inside a task: that task's code is
+                    # still running and is about to receive the error below, and the
+                    # computation it belongs to goes on. Only this traversal is given up
+                    # (batches still needed get scheduled again when their tasks are
+                    # walked next).
+                    del self._tasks[init_num_tasks:]
+                    self._batches.clear()
+                else:
+                    active_task = self.active_task
+                    self.reset()
+                    self.active_task = active_task
                 debug.dump(self)
                 raise RuntimeError(
                     "Number of scheduled tasks exceeded maximum threshold."
@@ -147,6 +160,9 @@ class TaskScheduler(object):
                 # user code ran: see _continue_with_task
                 self._pass = next(_traversal_numbers)
         self._pass = next(_traversal_numbers)
+
+    def _abandon_task(self, task):
+        task._pause_contexts()
 
     def _schedule_batch(self, batch):
         if batch.is_flushed():
